@@ -192,6 +192,73 @@ def _binmul_hook():
     pass
 
 
+def _derived_bases(model, rep):
+    """with_element / with_elements rebuild the basis: everything that
+    defines *where* and *how* the original integrates - the mesh, the
+    mapping, the quadrature, the cell subset or the facets and their side -
+    must be handed to the constructor, only the requested item changes."""
+    R1 = "C02-R1"
+    cases = [
+        ("cell_basis", "CellBasis", "with_element", ["E2"],
+         {"mapping": "MAP", "quadrature": "QUAD", "elements": "TIND"},
+         ["MESH", "E2"]),
+        ("cell_basis", "CellBasis", "with_elements", ["SUB"],
+         {"mapping": "MAP", "quadrature": "QUAD", "elements": "SUB"},
+         ["MESH", "ELEM"]),
+        ("facet_basis", "FacetBasis", "with_element", ["E2"],
+         {"mapping": "MAP", "quadrature": "QUAD", "facets": "FIND",
+          "side": "SIDE"}, ["MESH", "E2"]),
+    ]
+    for modn, clsn, meth, args, want_kw, want_pos in cases:
+        cls = model.cls(f"{AB}.{modn}", clsn)
+        fn = cls.methods.get(meth)
+        if fn is None:
+            raise AnalysisError(f"{clsn}.{meth} not found")
+        built = {}
+
+        def ctor(a, k, n):
+            built["a"], built["k"] = list(a), dict(k)
+            return "NEW"
+        obj = Obj(cls, {"mesh": "MESH", "elem": "ELEM", "mapping": "MAP",
+                        "quadrature": "QUAD", "tind": "TIND",
+                        "find": "FIND", "side": "SIDE",
+                        "intorder": "ORDER"})
+        it = Interp(model)
+        orig = it.builtin
+
+        def builtin(f, a, k, node, orig=orig, ctor=ctor):
+            if f.name == "type" and len(a) == 1:
+                return PyFunc(ctor)
+            return orig(f, a, k, node)
+        it.builtin = builtin
+        try:
+            it.call(fn, list(args), {}, self_obj=obj)
+        except (Unsupported, Raised) as e:
+            raise AnalysisError(f"{clsn}.{meth}: {e}")
+        a, k = built.get("a"), built.get("k")
+        if a is None:
+            raise AnalysisError(f"{clsn}.{meth}: constructor not called")
+        sig = cls.methods["__init__"].params()[1:]
+        bound = dict(zip(sig, a))
+        bound.update(k)
+        ok_pos = [bound.get("mesh"), bound.get("elem")] == want_pos
+        missing = sorted(kk for kk, v in want_kw.items()
+                         if bound.get(kk) != v)
+        # an explicit quadrature may be replaced by intorder only if the
+        # order is what defined the rule; here the stored rule is forwarded
+        cons = f"{clsn}.{meth}:forwards"
+        if ok_pos and not missing:
+            rep.ok(R1, cons, f"rebuilt with {sorted(want_kw)} of the "
+                   f"original")
+        else:
+            rep.fail(R1, fn.path, f"{clsn}.{meth}", cons,
+                     f"the rebuilt basis does not receive "
+                     f"{missing or 'the mesh / element'} of the original "
+                     f"(got {bound}): it integrates over other cells / "
+                     f"facets / the other side than the basis it was "
+                     f"derived from", fn.lineno)
+
+
 def _r12(model, rep):
     R1, R2 = "C02-R1", "C02-R2"
     # ---------------- CellBasis
@@ -510,7 +577,8 @@ def run(model: Model, rep, tier: str) -> None:
              "brefdom; intorder= and quadrature= override it")
     rep.rule("C02-R3", "declared maxdeg >= total degree of every local "
              "basis polynomial")
-    staged(lambda: _r12(model, rep), lambda: _interior_basis(model, rep),
+    staged(lambda: _derived_bases(model, rep),
+           lambda: _r12(model, rep), lambda: _interior_basis(model, rep),
            lambda: _r3(model, rep))
     rep.require_min("C02-R1", 12)
     rep.require_min("C02-R2", 6)
@@ -521,6 +589,15 @@ _CB = "skfem/assembly/basis/cell_basis.py"
 _FB = "skfem/assembly/basis/facet_basis.py"
 _ABF = "skfem/assembly/basis/abstract_basis.py"
 MUTANTS = [
+    ("with_element forgets the cell subset",
+     ("skfem/assembly/basis/cell_basis.py",
+      "            quadrature=self.quadrature,\n            "
+      "elements=self.tind,\n", "            quadrature=self.quadrature,\n"),
+     "C02-R1"),
+    ("facet with_element forgets the side again",
+     ("skfem/assembly/basis/facet_basis.py",
+      "            facets=self.find,\n            side=self.side,\n",
+      "            facets=self.find,\n"), "C02-R1"),
     ("subset basis stores a mapping restricted to its own cells",
      ("skfem/assembly/basis/cell_basis.py",
       "            self.nelems = len(self.tind)\n",
